@@ -37,33 +37,33 @@ type Arch struct {
 type Mode uint8
 
 const (
-	Imp   Mode = iota // implied / stack
-	Acc               // accumulator
-	Imm8              // #imm8 (REP SEP COP BRK WDM)
-	ImmM              // #imm, width by m
-	ImmX              // #imm, width by x
-	Imm16             // PEA
-	Dp                // d
-	DpX               // d,x
-	DpY               // d,y
-	DpInd             // (d)
-	DpXInd            // (d,x)
-	DpIndY            // (d),y
-	DpIndL            // [d]
-	DpIndLY           // [d],y
-	Sr                // d,s
-	SrIndY            // (d,s),y
-	Abs               // a
-	AbsX              // a,x
-	AbsY              // a,y
-	AbsInd            // (a)
-	AbsXInd           // (a,x)
-	AbsIndL           // [a]
-	Long              // al
-	LongX             // al,x
-	Rel8              // r
-	Rel16             // rl
-	Block             // MVN/MVP
+	Imp     Mode = iota // implied / stack
+	Acc                 // accumulator
+	Imm8                // #imm8 (REP SEP COP BRK WDM)
+	ImmM                // #imm, width by m
+	ImmX                // #imm, width by x
+	Imm16               // PEA
+	Dp                  // d
+	DpX                 // d,x
+	DpY                 // d,y
+	DpInd               // (d)
+	DpXInd              // (d,x)
+	DpIndY              // (d),y
+	DpIndL              // [d]
+	DpIndLY             // [d],y
+	Sr                  // d,s
+	SrIndY              // (d,s),y
+	Abs                 // a
+	AbsX                // a,x
+	AbsY                // a,y
+	AbsInd              // (a)
+	AbsXInd             // (a,x)
+	AbsIndL             // [a]
+	Long                // al
+	LongX               // al,x
+	Rel8                // r
+	Rel16               // rl
+	Block               // MVN/MVP
 )
 
 var ModeNames = [...]string{"imp", "acc", "imm8", "immM", "immX", "imm16", "d", "d,x", "d,y", "(d)", "(d,x)", "(d),y", "[d]", "[d],y",
@@ -389,8 +389,8 @@ func (a *Arch) operand(m []byte, mode Mode) (addr uint32, kind int) {
 	return 0, kNone
 }
 
-func bcdDigitsOK8(v uint8) bool    { return v&0x0F <= 9 && v>>4 <= 9 }
-func bcdDigitsOK16(v uint16) bool { return bcdDigitsOK8(uint8(v)) && bcdDigitsOK8(uint8(v >> 8)) }
+func bcdDigitsOK8(v uint8) bool   { return v&0x0F <= 9 && v>>4 <= 9 }
+func bcdDigitsOK16(v uint16) bool { return bcdDigitsOK8(uint8(v)) && bcdDigitsOK8(uint8(v>>8)) }
 
 // adcDec adds n BCD digits (n = 2 or 4).
 func adcDec(x, y uint16, c uint16, digits int) (res uint16, carry bool) {
